@@ -4,7 +4,9 @@ Decided at the level of operand kinds and primitive operations (numeric
 results then follow from Rust's semantics of the primitive)."""
 from .lib import hir as H
 from .lib import objtables as T
-from .lib.vmarms import vm_arms
+from .lib.vmarms import vm_arms, operator_dispatchers
+
+OPTYPE = "optype"     # name of binary_op's operator-class parameter (found by role at run time)
 
 EXPL = ("Table agreement (E2) over match arms, exhaustive over operator classes × variant pairs: (a) the dispatch table "
         "of VM::binary_op / bitwise_op — which (left kind, right kind, operator class) reach a result and which a "
@@ -27,9 +29,22 @@ BITS = [("BitAnd>::bitand", "&"), ("BitOr>::bitor", "|"), ("BitXor>::bitxor", "^
 def peval(n, optype, out):
     """Partial evaluation of an arm body of binary_op under optype == `optype`.
     Collects outcomes into out: ('ok', [guards]) | ('err', [guards])."""
-    def cond_value(c):
+    lets = {}
+    for x_ in H.walk(n):
+        if x_.get("k") == "let" and x_.get("pat", {}).get("k") == "bind" and x_.get("init") is not None:
+            lets[x_["pat"]["id"]] = x_["init"]
+
+    def unlet(c, d=0):
+        """a local bound by `let x = <expr>` in this arm stands for its initialiser (named temporaries)"""
         c = H.strip(c)
-        if c.get("k") == "match" and not H.is_try(c) and H.render(c["scrut"]) == "optype":
+        while H.is_local(c) and H.local_id(c) in lets and d < 6:
+            c = H.strip(lets[H.local_id(c)])
+            d += 1
+        return c
+
+    def cond_value(c):
+        c = unlet(c)
+        if c.get("k") == "match" and not H.is_try(c) and H.render(c["scrut"]) == OPTYPE:
             for a in c["arms"]:
                 vs = {H.last(v) for v in H.pat_variants(a["pat"])}
                 if optype in vs or "*" in vs:
@@ -57,7 +72,7 @@ def peval(n, optype, out):
 
     def residual(c):
         """the non-optype part of a condition, as text"""
-        c = H.strip(c)
+        c = unlet(c)
         if c.get("k") == "bin" and c["op"] in ("&&", "||"):
             parts = [residual(x) for x in (c["l"], c["r"]) if cond_value(x) is None]
             return " && ".join(p for p in parts if p)
@@ -95,11 +110,21 @@ def peval(n, optype, out):
             b = go(n.get("e"), guards + ["!(" + g + ")"]) if "e" in n else True
             return a or b
         if k == "match" and not H.is_try(n):
-            if H.render(n["scrut"]) == "optype":
+            if H.render(n["scrut"]) == OPTYPE:
+                cont = False
                 for a in n["arms"]:
                     vs = {H.last(v) for v in H.pat_variants(a["pat"])}
-                    if optype in vs or "*" in vs:
-                        return go(a["body"], guards)
+                    if optype in vs or "*" in vs or a["pat"].get("k") in ("wild", "bind"):
+                        if a.get("guard") is None:
+                            return go(a["body"], guards) or cont
+                        v = cond_value(a["guard"])
+                        if v is True:
+                            return go(a["body"], guards) or cont
+                        if v is False:
+                            continue
+                        g = residual(a["guard"])
+                        cont = go(a["body"], guards + [g]) or cont
+                        guards = guards + ["!(" + g + ")"]
                 return True
             cont = False
             for a in n["arms"]:
@@ -140,10 +165,12 @@ def run(F, R, tier):
     if not R.anchor("enum object::Object", vs):
         return
     # ---- (a) dispatch table of binary_op ----------------------------------------
-    f = F.fn("vm::interpreter::VM::binary_op")
+    global OPTYPE
+    disp = operator_dispatchers(F, R)
+    OPTYPE = disp["optype"] or "optype"
+    f = F.fn(disp["binary"]) if disp["binary"] else None
     if R.anchor("vm::interpreter::VM::binary_op", f):
-        ms = [x for x in H.walk(H.body_of(f)) if x.get("k") == "match" and not H.is_try(x)
-              and x["scrut"].get("k") == "tup"]
+        ms = H.matches_in(H.body_of(f), lambda x: H.strip(x["scrut"]).get("k") == "tup")
         if R.anchor("binary_op: match (left, right)", ms):
             arms = T.pair_arms(ms[0])
 
@@ -204,9 +231,9 @@ def run(F, R, tier):
             R.count("binary_op cells (pair × operator class) evaluated", n_cells)
             R.floor("binary_op cells", n_cells, 23 * 23 * 6)
     # bitwise_op: integers only
-    f = F.fn("vm::interpreter::VM::bitwise_op")
+    f = F.fn(disp["bitwise"]) if disp["bitwise"] else None
     if R.anchor("vm::interpreter::VM::bitwise_op", f):
-        ms = [x for x in H.walk(H.body_of(f)) if x.get("k") == "match" and not H.is_try(x) and x["scrut"].get("k") == "tup"]
+        ms = H.matches_in(H.body_of(f), lambda x: H.strip(x["scrut"]).get("k") == "tup")
         if R.anchor("bitwise_op: match (left, right)", ms):
             arms = T.pair_arms(ms[0])
             for va in vs:
@@ -230,21 +257,23 @@ def run(F, R, tier):
             a = arms.get(op)
             if not R.anchor("VM::run arm " + op, a):
                 continue
-            cs = [c for c in H.walk(a["body"]) if c.get("k") == "mcall" and c["m"] in ("binary_op", "bitwise_op")]
+            cs = [c for c in H.walk(a["body"]) if c.get("k") in ("call", "mcall") and c.get("callee") in (disp["binary"], disp["bitwise"]) and c.get("callee")]
             ok = len(cs) == 1
             det = "no binary_op/bitwise_op call"
             if ok:
                 c = cs[0]
                 args = c["args"]
                 clo = [x for x in args if x.get("k") == "closure"]
-                gotcls = H.last(H.ctor_of(H.strip(args[0])) or "") if c["m"] == "binary_op" else None
+                is_bin = c.get("callee") == disp["binary"]
+                gotcls = H.last(H.ctor_of(H.strip(args[0])) or "") if is_bin else None
                 b = H.strip(clo[0]["body"]) if clo else {}
                 if b.get("k") == "call" and b.get("ctor"):
                     b = H.strip(b["args"][0])
                 gotsym = b.get("op") if b.get("k") == "bin" else None
+                cps = tuple(p_.get("name") for p_ in clo[0].get("params", [])) if clo else ()
                 order = (H.render(b.get("l")), H.render(b.get("r"))) if b.get("k") == "bin" else None
-                ok = gotcls == cls and gotsym == sym and order == ("a", "b") and (c["m"] == "binary_op") == (cls is not None)
-                det = "%s(%s, |a,b| a %s b) operand order %s" % (c["m"], gotcls, gotsym, order)
+                ok = gotcls == cls and gotsym == sym and len(cps) == 2 and order == cps and is_bin == (cls is not None)
+                det = "%s(%s, |%s| %s %s %s) operand order %s" % (H.last(c.get("callee") or "?"), gotcls, ",".join(map(str, cps)), cps[0] if cps else "?", gotsym, cps[1] if len(cps) > 1 else "?", order)
             R.ob("opcode-operator", op, ok, det, "src/vm/interpreter.rs:%s" % a["line"])
 
     # ---- (b) primitives of the operator impls -----------------------------------------------
@@ -326,8 +355,23 @@ def run(F, R, tier):
     # Minus accepts numbers only; Not accepts integers only
     if arms and arms.get("Minus"):
         txt = H.render(arms["Minus"]["body"])
-        R.ob("unary-dispatch", "Minus", "if !self.peek(0).is_number() {return" in txt and "Err(" in txt.split("is_number()")[1][:60],
-             txt[:120], "src/vm/interpreter.rs:%s" % arms["Minus"]["line"])
+        # every path that negates passed the is_number test; the other side of that test is the runtime error
+        outm = []
+        peval(arms["Minus"]["body"], "Add", outm)
+        def polarity(g_):
+            posv = True
+            g_ = g_.strip()
+            while True:
+                if g_.startswith("!"):
+                    posv, g_ = not posv, g_[1:].strip()
+                elif g_.startswith("(") and g_.endswith(")"):
+                    g_ = g_[1:-1].strip()
+                else:
+                    return g_, posv
+        pol = [(k_, [polarity(g_) for g_ in gs if "is_number" in g_]) for k_, gs in outm]
+        okm = any(k_ == "ok" for k_, _ in pol) and any(k_ == "err" for k_, _ in pol) and \
+            all(ps and all(pv for _, pv in ps) for k_, ps in pol if k_ == "ok") and all(k_ == "err" for k_, ps in pol if any(not pv for _, pv in ps))
+        R.ob("unary-dispatch", "Minus", okm, "outcomes %s" % [(k_, gs) for k_, gs in outm][:4], "src/vm/interpreter.rs:%s" % arms["Minus"]["line"])
         isn = F.fn("object::Object::is_number")
         if R.anchor("object::Object::is_number", isn):
             m = T.top_match(isn)
